@@ -1,6 +1,9 @@
 package dyn
 
 import (
+	"math"
+	"unsafe"
+
 	"pipelined.dev/signal"
 )
 
@@ -201,10 +204,43 @@ func convProbe[S, D signal.SignalTypes](f func(*signal.Buffer[S], *signal.Buffer
 		dst := parent.Slice(2, 2+length)
 		// operands of different lengths, both ways
 		srcLong := signal.Alloc[S](signal.Allocator{Channels: ch, Length: length + 3, Capacity: length + 3})
+		ext := extremeValues[S]()
 		for i := 0; i < srcLong.Len(); i++ {
-			srcLong.SetSample(i, S(i%5))
+			// small values and the extremes of the element type in turn
+			if i%2 == 0 {
+				srcLong.SetSample(i, ext[(i/2)%len(ext)])
+			} else {
+				srcLong.SetSample(i, S(i%5))
+			}
 		}
 		dstLong := parent.Slice(1, 3+length)
 		return func() { SinkInt = f(src, dst) + f(srcLong, dst) + f(src, dstLong) }
 	}
+}
+
+// extremeValues returns the lowest, highest and middle codes of an integer
+// element type and their neighbours; for a floating-point type values at,
+// inside, just outside and far outside full scale, tiny ones and an infinity.
+func extremeValues[S signal.SignalTypes]() []S {
+	var zero S
+	one := zero + 1
+	if one/2 != zero {
+		var out []S
+		for _, f := range []float64{1, -1, 0.5, -0.5, 0.999999, -0.999999, 1.0000001, -1.0000001, 3, -3, 1e30, -1e30, 1e-30, -1e-30, math.Inf(1), math.Inf(-1)} {
+			out = append(out, S(f))
+		}
+		return out
+	}
+	bits := int(unsafe.Sizeof(zero)) * 8
+	top := one // 2^(bits-2)
+	for i := 0; i < bits-2; i++ {
+		top *= 2
+	}
+	if m := zero - 1; m > zero {
+		// unsigned: m is the highest code, 2*top the zero level
+		return []S{m, m - 1, 0, 1, 2 * top, 2*top - 1, 2*top + 1, top, top + top/2 + 1, m / 3}
+	}
+	hi := top + (top - 1)
+	lo := -hi - 1
+	return []S{hi, hi - 1, lo, lo + 1, 0, one, zero - 1, top, -top, hi / 3, lo / 3}
 }
